@@ -2,5 +2,1027 @@
 import KB.Spec
 import KB.Backend
 import KB.Lemmas.Coder
-namespace KB
-end KB
+namespace KB.Compact
+open KB Generated
+
+/-! ### sorted stores: `get` / `erase` -/
+
+theorem Store.sorted_cons {k v : Bytes} {rest : Store} :
+    Store.Sorted ((k, v) :: rest) ↔ (∀ kv ∈ rest, cmp k kv.1 = .lt) ∧ Store.Sorted rest := by
+  induction rest generalizing k v with
+  | nil => simp [Store.Sorted]
+  | cons kv rest ih =>
+    obtain ⟨k2, v2⟩ := kv
+    simp only [Store.Sorted, List.mem_cons, forall_eq_or_imp]
+    constructor
+    · rintro ⟨h1, h2⟩
+      refine ⟨⟨h1, ?_⟩, h2⟩
+      intro kv hkv
+      exact cmp_lt_trans h1 ((ih.1 h2).1 kv hkv)
+    · rintro ⟨⟨h1, _⟩, h2⟩
+      exact ⟨h1, h2⟩
+
+theorem Store.get_none_of_lt {s : Store} {a : Bytes} (h : ∀ kv ∈ s, cmp a kv.1 = .lt) :
+    s.get a = none := by
+  cases s with
+  | nil => rfl
+  | cons kv rest =>
+    obtain ⟨k, v⟩ := kv
+    have := h (k, v) (by simp)
+    simp only at this
+    simp [Store.get, this]
+
+theorem Store.mem_erase {s : Store} {a : Bytes} {kv : Bytes × Bytes} (h : kv ∈ s.erase a) : kv ∈ s := by
+  induction s with
+  | nil => simp [Store.erase] at h
+  | cons x rest ih =>
+    obtain ⟨k, v⟩ := x
+    simp only [Store.erase] at h
+    split at h
+    · exact h
+    · exact List.mem_cons_of_mem _ h
+    · simp only [List.mem_cons] at h ⊢
+      rcases h with h | h
+      · exact .inl h
+      · exact .inr (ih h)
+
+theorem Store.sorted_erase {s : Store} (hs : Store.Sorted s) (a : Bytes) : Store.Sorted (s.erase a) := by
+  induction s with
+  | nil => simp [Store.erase, Store.Sorted]
+  | cons x rest ih =>
+    obtain ⟨k, v⟩ := x
+    rw [Store.sorted_cons] at hs
+    simp only [Store.erase]
+    split
+    · exact Store.sorted_cons.2 hs
+    · exact hs.2
+    · rw [Store.sorted_cons]
+      exact ⟨fun kv hkv => hs.1 kv (Store.mem_erase hkv), ih hs.2⟩
+
+theorem Store.get_erase {s : Store} (hs : Store.Sorted s) (a b : Bytes) :
+    (s.erase a).get b = if b = a then none else s.get b := by
+  induction s with
+  | nil => simp [Store.erase, Store.get]
+  | cons x rest ih =>
+    obtain ⟨k, v⟩ := x
+    rw [Store.sorted_cons] at hs
+    simp only [Store.erase]
+    cases hak : cmp a k with
+    | lt =>
+      simp only
+      split
+      · rename_i hba
+        subst hba
+        simp [Store.get, hak]
+      · rfl
+    | eq =>
+      simp only
+      have : a = k := cmp_eq_iff.1 hak
+      subst this
+      split
+      · rename_i hba
+        subst hba
+        exact Store.get_none_of_lt hs.1
+      · rename_i hba
+        have hne : cmp b a ≠ .eq := fun h => hba (cmp_eq_iff.1 h)
+        simp only [Store.get]
+        cases hb : cmp b a with
+        | lt =>
+          simp only
+          exact Store.get_none_of_lt (fun kv hkv => cmp_lt_trans hb (hs.1 kv hkv))
+        | eq => exact absurd hb hne
+        | gt => rfl
+    | gt =>
+      simp only [Store.get]
+      by_cases hba : b = a
+      · subst hba
+        simp only [hak, if_true]
+        rw [ih hs.2]; simp
+      · simp only [hba, if_false]
+        cases hb : cmp b k with
+        | lt => rfl
+        | eq => rfl
+        | gt => simp only; rw [ih hs.2]; simp [hba]
+
+/-! ### the encoded store of a sorted decoded store -/
+
+theorem encode_lt_of_recLt {a b : Rec} (ha : Alphabet a.key ∧ a.rev < 2 ^ 64)
+    (hb : Alphabet b.key ∧ b.rev < 2 ^ 64) (h : recLt a b) :
+    cmp (encode a.key a.rev) (encode b.key b.rev) = .lt := by
+  rw [encode_cmp ha.1 hb.1 ha.2 hb.2]
+  rcases h with h | ⟨h1, h2⟩
+  · have : a.key ≠ b.key := by
+      intro e; rw [e, cmp_refl] at h; cases h
+    simp [this, h]
+  · simp [h1, Nat.compare_eq_lt, h2]
+
+theorem encodeStore_sorted {recs : List Rec} (hs : SortedRecs recs)
+    (hk : ∀ r ∈ recs, Alphabet r.key ∧ r.rev < 2 ^ 64) : Store.Sorted (encodeStore recs) := by
+  induction recs with
+  | nil => simp [encodeStore, Store.Sorted]
+  | cons x rest ih =>
+    have hs' := List.pairwise_cons.1 hs
+    simp only [encodeStore, List.map_cons]
+    rw [Store.sorted_cons]
+    refine ⟨?_, ih hs'.2 (fun r hr => hk r (List.mem_cons_of_mem _ hr))⟩
+    intro kv hkv
+    simp only [List.mem_map] at hkv
+    obtain ⟨y, hy, rfl⟩ := hkv
+    exact encode_lt_of_recLt (hk x (by simp)) (hk y (List.mem_cons_of_mem _ hy)) (hs'.1 y hy)
+
+theorem encodeStore_get {recs : List Rec} (hs : SortedRecs recs)
+    (hk : ∀ r ∈ recs, Alphabet r.key ∧ r.rev < 2 ^ 64) {r : Rec} (hr : r ∈ recs) :
+    (encodeStore recs).get (encode r.key r.rev) = some r.val := by
+  induction recs with
+  | nil => simp at hr
+  | cons x rest ih =>
+    have hs' := List.pairwise_cons.1 hs
+    simp only [encodeStore, List.map_cons, Store.get]
+    simp only [List.mem_cons] at hr
+    rcases hr with rfl | hr
+    · simp
+    · have hlt := encode_lt_of_recLt (hk x (by simp)) (hk r (List.mem_cons_of_mem _ hr)) (hs'.1 r hr)
+      have hgt : cmp (encode r.key r.rev) (encode x.key x.rev) = .gt := cmp_gt_iff.2 hlt
+      simp only [hgt]
+      exact ih hs'.2 (fun r hr => hk r (List.mem_cons_of_mem _ hr)) hr
+
+theorem recs_unique {recs : List Rec} (hs : SortedRecs recs) {a b : Rec} (ha : a ∈ recs) (hb : b ∈ recs)
+    (hkey : a.key = b.key) (hrev : a.rev = b.rev) : a = b := by
+  have irr : ∀ {x y : Rec}, x.key = y.key → x.rev = y.rev → ¬ recLt x y := by
+    intro x y h1 h2 h
+    rcases h with h | ⟨_, h⟩
+    · rw [h1, cmp_refl] at h; cases h
+    · omega
+  induction recs with
+  | nil => simp at ha
+  | cons x rest ih =>
+    have hs' := List.pairwise_cons.1 hs
+    simp only [List.mem_cons] at ha hb
+    rcases ha with rfl | ha
+    · rcases hb with rfl | hb
+      · rfl
+      · exact absurd (hs'.1 b hb) (irr hkey hrev)
+    · rcases hb with rfl | hb
+      · exact absurd (hs'.1 a ha) (irr hkey.symm hrev.symm)
+      · exact ih hs'.2 ha hb
+
+theorem isTomb_iff {v : Bytes} : isTomb v = true ↔ v = tombstone := by simp [isTomb]
+
+theorem isTomb_length {v : Bytes} (h : isTomb v = true) : v.length = 9 := by
+  rw [isTomb_iff] at h; subst h; decide
+
+/-! ### `runDelete` / `runDeletes` -/
+
+def actTarget : Act → Option Bytes
+  | .del ik _ => some ik
+  | .delcur ik _ _ => some ik
+  | _ => none
+
+theorem runDelete_store (mask : Nat → DelOutcome) (st : CompState) (a : Act) :
+    (runDelete mask st a).store = st.store ∨
+      ∃ ik, actTarget a = some ik ∧ (runDelete mask st a).store = st.store.erase ik := by
+  cases a with
+  | emit k v r => exact .inl rfl
+  | panic => exact .inl rfl
+  | del ik raw =>
+    simp only [runDelete]
+    split
+    · exact .inl rfl
+    · split
+      · exact .inr ⟨ik, rfl, rfl⟩
+      · exact .inl rfl
+      · exact .inl rfl
+  | delcur ik v raw =>
+    simp only [runDelete]
+    split
+    · exact .inl rfl
+    · split
+      · split
+        · exact .inr ⟨ik, rfl, rfl⟩
+        · exact .inl rfl
+      · exact .inl rfl
+      · exact .inl rfl
+
+theorem runDeletes_nil (mask : Nat → DelOutcome) (st : CompState) : runDeletes mask st [] = st := rfl
+
+theorem runDeletes_cons (mask : Nat → DelOutcome) (st : CompState) (a : Act) (l : List Act) :
+    runDeletes mask st (a :: l) = runDeletes mask (runDelete mask st a) l := rfl
+
+theorem runDeletes_singleton (mask : Nat → DelOutcome) (st : CompState) (a : Act) :
+    runDeletes mask st [a] = runDelete mask st a := rfl
+
+theorem runDeletes_append (mask : Nat → DelOutcome) (st : CompState) (l1 l2 : List Act) :
+    runDeletes mask st (l1 ++ l2) = runDeletes mask (runDeletes mask st l1) l2 := by
+  simp [runDeletes, List.foldl_append]
+
+theorem runDeletes_sorted (mask : Nat → DelOutcome) (acts : List Act) (st : CompState)
+    (h : Store.Sorted st.store) : Store.Sorted (runDeletes mask st acts).store := by
+  induction acts generalizing st with
+  | nil => exact h
+  | cons a l ih =>
+    rw [runDeletes_cons]
+    apply ih
+    rcases runDelete_store mask st a with e | ⟨ik, _, e⟩
+    · rw [e]; exact h
+    · rw [e]; exact Store.sorted_erase h ik
+
+theorem runDeletes_get_none (mask : Nat → DelOutcome) (acts : List Act) (st : CompState)
+    (h : Store.Sorted st.store) {b : Bytes} (hb : (runDeletes mask st acts).store.get b = none) :
+    st.store.get b = none ∨ ∃ a ∈ acts, actTarget a = some b := by
+  induction acts generalizing st with
+  | nil => exact .inl hb
+  | cons a l ih =>
+    rw [runDeletes_cons] at hb
+    rcases runDelete_store mask st a with e | ⟨ik, ht, e⟩
+    · rcases ih (runDelete mask st a) (e ▸ h) hb with h1 | ⟨a', ha', ht'⟩
+      · exact .inl (e ▸ h1)
+      · exact .inr ⟨a', List.mem_cons_of_mem _ ha', ht'⟩
+    · rcases ih (runDelete mask st a) (e ▸ Store.sorted_erase h ik) hb with h1 | ⟨a', ha', ht'⟩
+      · rw [e, Store.get_erase h] at h1
+        by_cases hbi : b = ik
+        · subst hbi; exact .inr ⟨a, by simp, ht⟩
+        · simp only [hbi, if_false] at h1; exact .inl h1
+      · exact .inr ⟨a', List.mem_cons_of_mem _ ha', ht'⟩
+
+/-! ### the worker step under `compact := true`, expiry off -/
+
+/-- the compaction configuration of C07 -/
+abbrev ccfg (R : Nat) : WCfg := { R := R, compact := true }
+
+def cA1 (p : Prev) (r : Rec) : List Act :=
+  if r.key != p.key then emitPrev p
+  else if p.rev > 0 then [.del (encode p.key p.rev) p.key] else []
+
+def cA2 (r : Rec) : List Act := if isTomb r.val then [.del r.ik r.key] else []
+
+/-- the "continue without updating prev" condition -/
+def idxAbove (R : Nat) (r : Rec) : Prop := r.rev = 0 ∧ r.val.length = 9 ∧ R < fromBE (r.val.take 8)
+
+instance (R : Nat) (r : Rec) : Decidable (idxAbove R r) := by unfold idxAbove; infer_instance
+
+def cA3 (R : Nat) (r : Rec) : List Act :=
+  if r.rev = 0 ∧ r.val.length = 9 ∧ ¬ R < fromBE (r.val.take 8) then [.delcur r.ik r.val r.key] else []
+
+theorem workerStep_skip {R : Nat} (p : Prev) {r : Rec} (h : R < r.rev) :
+    workerStep (ccfg R) p r = ([], p) := by
+  simp [workerStep, expireStep, h]
+
+theorem workerStep_fst {R : Nat} (p : Prev) {r : Rec} (h : ¬ R < r.rev) :
+    (workerStep (ccfg R) p r).1 = cA1 p r ++ (cA2 r ++ cA3 R r) := by
+  simp only [workerStep, expireStep, Bool.true_or, if_true, gt_iff_lt, h, if_false, Bool.true_and,
+    scannerRevisionValueLengthWithDeletionFlag, cA1, cA2, cA3, beq_iff_eq, Bool.and_eq_true]
+  by_cases h1 : r.rev = 0 <;> by_cases h2 : r.val.length = 9 <;>
+    by_cases h3 : R < fromBE (r.val.take 8) <;> simp [h1, h2, h3]
+
+theorem workerStep_snd {R : Nat} (p : Prev) {r : Rec} (h : ¬ R < r.rev) :
+    (workerStep (ccfg R) p r).2 = if idxAbove R r then p else ⟨r.key, r.rev, r.val⟩ := by
+  simp only [workerStep, expireStep, Bool.true_or, if_true, gt_iff_lt, h, if_false, Bool.true_and,
+    scannerRevisionValueLengthWithDeletionFlag, idxAbove, beq_iff_eq, Bool.and_eq_true]
+  by_cases h1 : r.rev = 0 <;> by_cases h2 : r.val.length = 9 <;>
+    by_cases h3 : R < fromBE (r.val.take 8) <;> simp [h1, h2, h3]
+
+theorem emitPrev_target {p : Prev} {a : Act} (h : a ∈ emitPrev p) : actTarget a = none := by
+  unfold emitPrev at h
+  split at h
+  · simp at h; subst h; rfl
+  · simp at h
+
+theorem cA1_target {p : Prev} {r : Rec} {a : Act} {ik : Bytes} (h : a ∈ cA1 p r) (ht : actTarget a = some ik) :
+    ik = encode p.key p.rev ∧ r.key = p.key ∧ 0 < p.rev := by
+  unfold cA1 at h
+  split at h
+  · rw [emitPrev_target h] at ht; cases ht
+  · rename_i hk
+    split at h
+    · rename_i hp
+      simp at h; subst h
+      simp only [actTarget, Option.some.injEq] at ht
+      simp at hk
+      exact ⟨ht.symm, hk, hp⟩
+    · simp at h
+
+theorem cA2_target {r : Rec} {a : Act} {ik : Bytes} (h : a ∈ cA2 r) (ht : actTarget a = some ik) :
+    ik = r.ik ∧ isTomb r.val = true := by
+  unfold cA2 at h
+  split at h
+  · rename_i hp
+    simp at h; subst h
+    simp only [actTarget, Option.some.injEq] at ht
+    exact ⟨ht.symm, hp⟩
+  · simp at h
+
+theorem cA3_target {R : Nat} {r : Rec} {a : Act} {ik : Bytes} (h : a ∈ cA3 R r) (ht : actTarget a = some ik) :
+    ik = r.ik ∧ r.rev = 0 ∧ r.val.length = 9 := by
+  unfold cA3 at h
+  split at h
+  · rename_i hp
+    simp at h; subst h
+    simp only [actTarget, Option.some.injEq] at ht
+    exact ⟨ht.symm, hp.1, hp.2.1⟩
+  · simp at h
+
+/-! ### which records a compaction pass can remove -/
+
+/-- what may be removed: at or below `R`; an index record only with a 9-byte value; a version only
+when it is a deletion marker or superseded by a newer version `≤ R` of the same key -/
+def Deletable (R : Nat) (recs : List Rec) (d : Rec) : Prop :=
+  d.rev ≤ R ∧ (d.rev = 0 → d.val.length = 9) ∧
+    (0 < d.rev → isTomb d.val = true ∨ ∃ r' ∈ recs, r'.key = d.key ∧ d.rev < r'.rev ∧ r'.rev ≤ R)
+
+/-- `prev` is strictly before every remaining record (as a version) -/
+def PrevBefore (p : Prev) (rs : List Rec) : Prop :=
+  ∀ x ∈ rs, cmp p.key x.key = .lt ∨ (p.key = x.key ∧ (0 < p.rev → p.rev < x.rev))
+
+theorem prevBefore_init (rs : List Rec) : PrevBefore {} rs := by
+  intro x _
+  cases hx : x.key with
+  | nil => exact .inr ⟨rfl, fun h => absurd h (by decide)⟩
+  | cons a as => exact .inl rfl
+
+theorem prevBefore_tail {p : Prev} {r : Rec} {rs : List Rec} (h : PrevBefore p (r :: rs)) :
+    PrevBefore p rs := fun x hx => h x (List.mem_cons_of_mem _ hx)
+
+theorem prevBefore_next {r : Rec} {rs : List Rec} (h : (r :: rs).Pairwise recLt) :
+    PrevBefore ⟨r.key, r.rev, r.val⟩ rs := by
+  intro x hx
+  rcases (List.pairwise_cons.1 h).1 x hx with h1 | ⟨h1, h2⟩
+  · exact .inl h1
+  · exact .inr ⟨h1, fun _ => h2⟩
+
+theorem prevBefore_step {R : Nat} {p : Prev} {r : Rec} {rs : List Rec} (hp : PrevBefore p (r :: rs))
+    (h : (r :: rs).Pairwise recLt) : PrevBefore (workerStep (ccfg R) p r).2 rs := by
+  by_cases hR : R < r.rev
+  · rw [workerStep_skip p hR]; exact prevBefore_tail hp
+  · rw [workerStep_snd p hR]
+    split
+    · exact prevBefore_tail hp
+    · exact prevBefore_next h
+
+theorem workerStep_rev_lt {R : Nat} {p : Prev} {r : Rec} (hp : p.rev < 2 ^ 64) (hr : r.rev < 2 ^ 64) :
+    (workerStep (ccfg R) p r).2.rev < 2 ^ 64 := by
+  by_cases hR : R < r.rev
+  · rw [workerStep_skip p hR]; exact hp
+  · rw [workerStep_snd p hR]
+    split
+    · exact hp
+    · exact hr
+
+theorem step_targets {recs : List Rec} (hs : SortedRecs recs) (hw : WellKeyed recs)
+    (hk : ∀ r ∈ recs, Alphabet r.key ∧ r.rev < 2 ^ 64) (R : Nat) {p : Prev} {r : Rec} (hr : r ∈ recs)
+    (hpr : cmp p.key r.key = .lt ∨ (p.key = r.key ∧ (0 < p.rev → p.rev < r.rev)))
+    (hp64 : p.rev < 2 ^ 64) {a : Act} (ha : a ∈ (workerStep (ccfg R) p r).1) {ik : Bytes}
+    (ht : actTarget a = some ik) {d : Rec} (hd : d ∈ recs) (hik : d.ik = ik) : Deletable R recs d := by
+  by_cases hR : R < r.rev
+  · rw [workerStep_skip p hR] at ha; simp at ha
+  · rw [workerStep_fst p hR] at ha
+    simp only [List.mem_append] at ha
+    have hdk := hw d hd
+    rcases ha with ha | ha | ha
+    · obtain ⟨e, hkey, hpos⟩ := cA1_target ha ht
+      rw [hik, e] at hdk
+      obtain ⟨e1, e2⟩ := encode_inj hp64 (hk d hd).2 hdk
+      have hlt : p.rev < r.rev := by
+        rcases hpr with h | ⟨_, h⟩
+        · rw [hkey, cmp_refl] at h; cases h
+        · exact h hpos
+      refine ⟨by omega, by omega, fun _ => .inr ⟨r, hr, ?_, by omega, by omega⟩⟩
+      rw [hkey, e1]
+    · obtain ⟨e, htomb⟩ := cA2_target ha ht
+      rw [hik, e, hw r hr] at hdk
+      obtain ⟨e1, e2⟩ := encode_inj (hk r hr).2 (hk d hd).2 hdk
+      have : d = r := recs_unique hs hd hr e1.symm e2.symm
+      subst this
+      exact ⟨by omega, fun _ => isTomb_length htomb, fun _ => .inl htomb⟩
+    · obtain ⟨e, h0, h9⟩ := cA3_target ha ht
+      rw [hik, e, hw r hr] at hdk
+      obtain ⟨e1, e2⟩ := encode_inj (hk r hr).2 (hk d hd).2 hdk
+      have : d = r := recs_unique hs hd hr e1.symm e2.symm
+      subst this
+      exact ⟨by omega, fun _ => h9, fun h => by omega⟩
+
+theorem workerLoop_targets {recs : List Rec} (hs : SortedRecs recs) (hw : WellKeyed recs)
+    (hk : ∀ r ∈ recs, Alphabet r.key ∧ r.rev < 2 ^ 64) (R : Nat) (rs : List Rec) (p : Prev)
+    (hsub : ∀ x ∈ rs, x ∈ recs) (hpw : rs.Pairwise recLt) (hp : PrevBefore p rs)
+    (hp64 : p.rev < 2 ^ 64) {a : Act} (ha : a ∈ workerLoop (ccfg R) p rs) {ik : Bytes}
+    (ht : actTarget a = some ik) {d : Rec} (hd : d ∈ recs) (hik : d.ik = ik) : Deletable R recs d := by
+  induction rs generalizing p with
+  | nil =>
+    simp only [workerLoop] at ha
+    rw [emitPrev_target ha] at ht; cases ht
+  | cons r rs ih =>
+    simp only [workerLoop, List.mem_append] at ha
+    rcases ha with ha | ha
+    · exact step_targets hs hw hk R (hsub r (by simp)) (hp r (by simp)) hp64 ha ht hd hik
+    · exact ih _ (fun x hx => hsub x (List.mem_cons_of_mem _ hx)) (List.pairwise_cons.1 hpw).2
+        (prevBefore_step hp hpw) (workerStep_rev_lt hp64 (hk r (hsub r (by simp))).2) ha
+
+/-- Part A, first half: everything a compaction pass removes is `Deletable`. -/
+theorem compact_deletable {recs : List Rec} (hs : SortedRecs recs) (hw : WellKeyed recs)
+    (hk : ∀ r ∈ recs, Alphabet r.key ∧ r.rev < 2 ^ 64) (R : Nat) (mask : Nat → DelOutcome)
+    {d : Rec} (hd : d ∈ recs)
+    (hdel : (runDeletes mask { store := encodeStore recs } (workerActs (ccfg R) recs)).store.get d.ik = none) :
+    Deletable R recs d := by
+  rcases runDeletes_get_none mask _ _ (encodeStore_sorted hs hk) hdel with h | ⟨a, ha, ht⟩
+  · simp only at h
+    rw [hw d hd, encodeStore_get hs hk hd] at h; cases h
+  · exact workerLoop_targets hs hw hk R recs {} (fun _ h => h) hs (prevBefore_init _) (by decide) ha ht hd rfl
+
+/-! ### Part B: removing a well-behaved set of records does not change reads at `R' ≥ R` -/
+
+def visPred (R : Nat) (k : Bytes) (r : Rec) : Bool :=
+  r.key == k && decide (0 < r.rev) && decide (r.rev ≤ R)
+
+theorem visPred_iff {R : Nat} {k : Bytes} {r : Rec} :
+    visPred R k r = true ↔ r.key = k ∧ 0 < r.rev ∧ r.rev ≤ R := by
+  simp [visPred, and_assoc]
+
+theorem visible_eq (R : Nat) (recs : List Rec) (k : Bytes) :
+    visible R recs k = (recs.filter (visPred R k)).getLast? := rfl
+
+theorem visible_filter (R : Nat) (recs : List Rec) (k : Bytes) (keep : Rec → Bool) :
+    visible R (recs.filter keep) k = ((recs.filter (visPred R k)).filter keep).getLast? := by
+  rw [visible_eq, List.filter_filter, List.filter_filter]
+  congr 1
+  apply List.filter_congr
+  intro x _
+  exact Bool.and_comm _ _
+
+theorem readAt_filter {recs : List Rec} (hs : SortedRecs recs) (keep : Rec → Bool) (R R' : Nat)
+    (hR : R ≤ R')
+    (h12 : ∀ d ∈ recs, keep d = false → Deletable R recs d)
+    (h3 : ∀ t ∈ recs, keep t = false → isTomb t.val = true → 0 < t.rev →
+      ∀ w ∈ recs, w.key = t.key → 0 < w.rev → w.rev < t.rev → keep w = false)
+    (k : Bytes) : readAt R' (recs.filter keep) k = readAt R' recs k := by
+  unfold readAt
+  rw [visible_filter, visible_eq]
+  have hF : (recs.filter (visPred R' k)).Pairwise recLt := List.Pairwise.sublist List.filter_sublist hs
+  have hmem : ∀ x ∈ recs.filter (visPred R' k), x ∈ recs ∧ x.key = k ∧ 0 < x.rev ∧ x.rev ≤ R' := by
+    intro x hx
+    rw [List.mem_filter, visPred_iff] at hx
+    exact hx
+  rcases List.eq_nil_or_concat (recs.filter (visPred R' k)) with h | ⟨init, n, h⟩
+  · rw [h]; rfl
+  · rw [List.concat_eq_append] at h
+    rw [h] at hF hmem
+    rw [h, List.filter_append, List.getLast?_concat]
+    obtain ⟨hn, hnk, hn0, hnR⟩ := hmem n (by simp)
+    have hinit : ∀ x ∈ init, x ∈ recs ∧ x.key = n.key ∧ 0 < x.rev ∧ x.rev < n.rev := by
+      intro x hx
+      obtain ⟨hx1, hx2, hx3, _⟩ := hmem x (by simp [hx])
+      refine ⟨hx1, hx2.trans hnk.symm, hx3, ?_⟩
+      rcases (List.pairwise_append.1 hF).2.2 x hx n (by simp) with hc | ⟨_, hc⟩
+      · rw [hx2, hnk, cmp_refl] at hc; cases hc
+      · exact hc
+    cases hkn : keep n with
+    | true =>
+      simp [hkn]
+    | false =>
+      simp only [List.filter_cons, hkn, Bool.false_eq_true, if_false, List.filter_nil, List.append_nil]
+      obtain ⟨hnle, _, hpos⟩ := h12 n hn hkn
+      have htomb : isTomb n.val = true := by
+        rcases hpos hn0 with ht | ⟨r', hr', hkey, hlt, hle⟩
+        · exact ht
+        · exfalso
+          have hr'F : r' ∈ init ++ [n] := by
+            rw [← h, List.mem_filter, visPred_iff]
+            exact ⟨hr', hkey.trans hnk, by omega, by omega⟩
+          simp only [List.mem_append, List.mem_singleton] at hr'F
+          rcases hr'F with hi | rfl
+          · have := (hinit r' hi).2.2.2; omega
+          · omega
+      have hnil : init.filter keep = [] := by
+        rw [List.filter_eq_nil_iff]
+        intro x hx
+        obtain ⟨hx1, hx2, hx3, hx4⟩ := hinit x hx
+        simp [h3 n hn hkn htomb hn0 x hx1 hx2 hx3 hx4]
+      rw [hnil]
+      simp [htomb]
+
+/-! ### Part A, second half: removed deletion markers leave no older version behind -/
+
+/-- every version of `k` older than `n` is gone from `s` -/
+def Closed (recs : List Rec) (s : Store) (k : Bytes) (n : Nat) : Prop :=
+  ∀ w ∈ recs, w.key = k → 0 < w.rev → w.rev < n → s.get w.ik = none
+
+/-- a removed deletion marker has no older version left -/
+def TombClosed (recs : List Rec) (s : Store) : Prop :=
+  ∀ t ∈ recs, s.get t.ik = none → isTomb t.val = true → 0 < t.rev → Closed recs s t.key t.rev
+
+/-- raw key `k` is being skipped, or all its versions older than `n` are gone -/
+def Good (recs : List Rec) (st : CompState) (k : Bytes) (n : Nat) : Prop :=
+  st.lastFailed = k ∨ Closed recs st.store k n
+
+theorem closed_zero (recs : List Rec) (s : Store) (k : Bytes) : Closed recs s k 0 :=
+  fun _ _ _ _ h => absurd h (Nat.not_lt_zero _)
+
+theorem closed_erase {recs : List Rec} {s : Store} (hs : Store.Sorted s) {k : Bytes} {n : Nat}
+    (h : Closed recs s k n) (ik : Bytes) : Closed recs (s.erase ik) k n := by
+  intro w hw hk h0 hn
+  rw [Store.get_erase hs]
+  split
+  · rfl
+  · exact h w hw hk h0 hn
+
+theorem tombClosed_erase {recs : List Rec} {s : Store} (hs : Store.Sorted s) (hT : TombClosed recs s)
+    {ik : Bytes}
+    (hik : ∀ t ∈ recs, t.ik = ik → isTomb t.val = true → 0 < t.rev → Closed recs s t.key t.rev) :
+    TombClosed recs (s.erase ik) := by
+  intro t ht hget htomb hpos
+  apply closed_erase hs
+  rw [Store.get_erase hs] at hget
+  by_cases h : t.ik = ik
+  · exact hik t ht h htomb hpos
+  · simp only [h, if_false] at hget
+    exact hT t ht hget htomb hpos
+
+theorem runDelete_del_cases {mask : Nat → DelOutcome} (hm : ∀ i, mask i ≠ .failCas) (st : CompState)
+    (ik : Bytes) {raw : Bytes} (hraw : raw ≠ []) :
+    (st.lastFailed = raw ∧ runDelete mask st (.del ik raw) = st) ∨
+    (st.lastFailed ≠ raw ∧ (runDelete mask st (.del ik raw)).lastFailed = st.lastFailed ∧
+        (runDelete mask st (.del ik raw)).store = st.store.erase ik) ∨
+    ((runDelete mask st (.del ik raw)).lastFailed = raw ∧
+        (runDelete mask st (.del ik raw)).store = st.store) := by
+  by_cases h : st.lastFailed = raw
+  · left
+    refine ⟨h, ?_⟩
+    have hl : raw.length > 0 := List.length_pos_iff.2 hraw
+    simp [runDelete, h, hl]
+  · right
+    have hc : (decide (st.lastFailed.length > 0) && st.lastFailed == raw) = false := by simp [h]
+    simp only [runDelete, hc]
+    cases hmc : mask st.calls with
+    | ok => exact .inl ⟨h, rfl, rfl⟩
+    | fail => exact .inr ⟨rfl, rfl⟩
+    | failCas => exact absurd hmc (hm _)
+
+theorem good_del_step {recs : List Rec} {mask : Nat → DelOutcome} (hm : ∀ i, mask i ≠ .failCas)
+    {st : CompState} {k : Bytes} (hk : k ≠ []) (hsorted : Store.Sorted st.store)
+    (hT : TombClosed recs st.store) {n : Nat} (hG : Good recs st k n) {ik : Bytes}
+    (hik : ∀ t ∈ recs, t.ik = ik ↔ (t.key = k ∧ t.rev = n)) {m : Nat}
+    (hmn : ∀ w ∈ recs, w.key = k → 0 < w.rev → w.rev < m → w.rev ≤ n) :
+    Store.Sorted (runDelete mask st (.del ik k)).store ∧
+    TombClosed recs (runDelete mask st (.del ik k)).store ∧
+    Good recs (runDelete mask st (.del ik k)) k m := by
+  rcases runDelete_del_cases hm st ik hk with ⟨h1, h2⟩ | ⟨h1, h2, h3⟩ | ⟨h1, h2⟩
+  · rw [h2]; exact ⟨hsorted, hT, .inl h1⟩
+  · have hC : Closed recs st.store k n := by
+      rcases hG with h | h
+      · exact absurd h h1
+      · exact h
+    rw [h3]
+    refine ⟨Store.sorted_erase hsorted ik, ?_, .inr ?_⟩
+    · apply tombClosed_erase hsorted hT
+      intro t ht hti _ _
+      obtain ⟨e1, e2⟩ := (hik t ht).1 hti
+      rw [e1, e2]; exact hC
+    · intro w hw hwk h0 hlt
+      rw [h3, Store.get_erase hsorted]
+      by_cases hwi : w.ik = ik
+      · simp [hwi]
+      · simp only [hwi, if_false]
+        have hle := hmn w hw hwk h0 hlt
+        have hne : w.rev ≠ n := fun e => hwi ((hik w hw).2 ⟨hwk, e⟩)
+        exact hC w hw hwk h0 (by omega)
+  · rw [h2]; exact ⟨hsorted, hT, .inl h1⟩
+
+theorem runDeletes_emitPrev (mask : Nat → DelOutcome) (st : CompState) (p : Prev) :
+    runDeletes mask st (emitPrev p) = st := by
+  unfold emitPrev; split <;> rfl
+
+theorem ik_iff {recs : List Rec} (hw : WellKeyed recs)
+    (hk : ∀ r ∈ recs, Alphabet r.key ∧ r.rev < 2 ^ 64) {k : Bytes} {n : Nat} (hn : n < 2 ^ 64) :
+    ∀ t ∈ recs, t.ik = encode k n ↔ (t.key = k ∧ t.rev = n) := by
+  intro t ht
+  rw [hw t ht]
+  constructor
+  · exact encode_inj (hk t ht).2 hn
+  · rintro ⟨rfl, rfl⟩; rfl
+
+/-- `prev` dominates every processed version `≤ R` -/
+def PrevDom (R : Nat) (p : Prev) (done : List Rec) : Prop :=
+  ∀ w ∈ done, 0 < w.rev → w.rev ≤ R → cmp w.key p.key = .lt ∨ (w.key = p.key ∧ w.rev ≤ p.rev)
+
+theorem older_le_prev {recs done rs : List Rec} {r : Rec} (hs : SortedRecs recs)
+    (hsplit : recs = done ++ r :: rs) {R : Nat} {p : Prev} (hpb : PrevBefore p (r :: rs))
+    (hpd : PrevDom R p done) (hrR : r.rev ≤ R) {w : Rec} (hw : w ∈ recs) (hwk : w.key = r.key)
+    (h0 : 0 < w.rev) (hlt : w.rev < r.rev) : w.key = p.key ∧ w.rev ≤ p.rev := by
+  have hirr : ∀ k : Bytes, cmp k k ≠ .lt := by intro k; rw [cmp_refl]; decide
+  rw [hsplit] at hs hw
+  have hpw := List.pairwise_append.1 hs
+  have hwd : w ∈ done := by
+    rcases List.mem_append.1 hw with h | h
+    · exact h
+    · exfalso
+      rcases List.mem_cons.1 h with rfl | h
+      · omega
+      · rcases (List.pairwise_cons.1 hpw.2.1).1 w h with hc | ⟨_, hc⟩
+        · rw [hwk] at hc; exact hirr _ hc
+        · omega
+  rcases hpd w hwd h0 (by omega) with hc | hc
+  · exfalso
+    rw [hwk] at hc
+    rcases hpb r (by simp) with h | ⟨h, _⟩
+    · exact hirr _ (cmp_lt_trans hc h)
+    · rw [h] at hc; exact hirr _ hc
+  · exact hc
+
+theorem prevDom_step {recs done rs : List Rec} {r : Rec} (hs : SortedRecs recs)
+    (hsplit : recs = done ++ r :: rs) {R : Nat} {p : Prev} (hpd : PrevDom R p done) :
+    PrevDom R (workerStep (ccfg R) p r).2 (done ++ [r]) := by
+  rw [hsplit] at hs
+  have hpw := List.pairwise_append.1 hs
+  by_cases hR : R < r.rev
+  · rw [workerStep_skip p hR]
+    intro w hw h0 hle
+    rcases List.mem_append.1 hw with h | h
+    · exact hpd w h h0 hle
+    · simp only [List.mem_singleton] at h; subst h; omega
+  · rw [workerStep_snd p hR]
+    split
+    · rename_i hidx
+      intro w hw h0 hle
+      rcases List.mem_append.1 hw with h | h
+      · exact hpd w h h0 hle
+      · simp only [List.mem_singleton] at h; subst h
+        have := hidx.1; omega
+    · intro w hw h0 hle
+      rcases List.mem_append.1 hw with h | h
+      · rcases hpw.2.2 w h r (by simp) with hc | ⟨h1, h2⟩
+        · exact .inl hc
+        · exact .inr ⟨h1, by simp only; omega⟩
+      · simp only [List.mem_singleton] at h; subst h
+        exact .inr ⟨rfl, Nat.le_refl _⟩
+
+/-- the loop invariant on the execution state -/
+def CInv (recs : List Rec) (p : Prev) (st : CompState) (rs : List Rec) : Prop :=
+  Store.Sorted st.store ∧ TombClosed recs st.store ∧
+    ((∃ x ∈ rs, x.key = p.key) → Good recs st p.key p.rev)
+
+section loop
+variable {recs : List Rec} {mask : Nat → DelOutcome}
+
+theorem phase1 (hm : ∀ i, mask i ≠ .failCas) (hs : SortedRecs recs) (hw : WellKeyed recs)
+    (hk : ∀ r ∈ recs, Alphabet r.key ∧ r.rev < 2 ^ 64) (hne : ∀ r ∈ recs, r.key ≠ [])
+    {done rs : List Rec} {r : Rec} (hsplit : recs = done ++ r :: rs) {R : Nat} {p : Prev}
+    (hpb : PrevBefore p (r :: rs)) (hpd : PrevDom R p done) (hp64 : p.rev < 2 ^ 64) (hrR : r.rev ≤ R)
+    {st : CompState} (hI : CInv recs p st (r :: rs)) :
+    Store.Sorted (runDeletes mask st (cA1 p r)).store ∧
+    TombClosed recs (runDeletes mask st (cA1 p r)).store ∧
+    Good recs (runDeletes mask st (cA1 p r)) r.key r.rev := by
+  have hr : r ∈ recs := by rw [hsplit]; simp
+  have hold : ∀ w ∈ recs, w.key = r.key → 0 < w.rev → w.rev < r.rev → w.key = p.key ∧ w.rev ≤ p.rev :=
+    fun w hw hwk h0 hlt => older_le_prev hs hsplit hpb hpd hrR hw hwk h0 hlt
+  unfold cA1
+  split
+  · rename_i hkey
+    rw [runDeletes_emitPrev]
+    refine ⟨hI.1, hI.2.1, .inr ?_⟩
+    intro w hw hwk h0 hlt
+    exfalso
+    have := (hold w hw hwk h0 hlt).1
+    rw [hwk] at this
+    simp [this] at hkey
+  · rename_i hkey
+    have hkey : r.key = p.key := by simpa using hkey
+    split
+    · rename_i hpos
+      have hG := hI.2.2 ⟨r, by simp, hkey⟩
+      have hpk : p.key ≠ [] := hkey ▸ hne r hr
+      rw [runDeletes_singleton]
+      rw [hkey]
+      exact good_del_step hm hpk hI.1 hI.2.1 hG (ik_iff hw hk hp64)
+        (fun w hw hwk h0 hlt => (hold w hw (hwk.trans hkey.symm) h0 hlt).2)
+    · rename_i hpos
+      refine ⟨hI.1, hI.2.1, .inr ?_⟩
+      intro w hw hwk h0 hlt
+      have := (hold w hw hwk h0 hlt).2
+      omega
+
+theorem phase2 (hm : ∀ i, mask i ≠ .failCas) (hw : WellKeyed recs)
+    (hk : ∀ r ∈ recs, Alphabet r.key ∧ r.rev < 2 ^ 64) (hne : ∀ r ∈ recs, r.key ≠ [])
+    {r : Rec} (hr : r ∈ recs) {st : CompState}
+    (h : Store.Sorted st.store ∧ TombClosed recs st.store ∧ Good recs st r.key r.rev) :
+    Store.Sorted (runDeletes mask st (cA2 r)).store ∧
+    TombClosed recs (runDeletes mask st (cA2 r)).store ∧
+    Good recs (runDeletes mask st (cA2 r)) r.key r.rev := by
+  unfold cA2
+  split
+  · rw [runDeletes_singleton]
+    rw [hw r hr]
+    exact good_del_step hm (hne r hr) h.1 h.2.1 h.2.2 (ik_iff hw hk (hk r hr).2)
+      (fun w _ _ _ hlt => Nat.le_of_lt hlt)
+  · exact h
+
+theorem phase3 (hw : WellKeyed recs)
+    (hk : ∀ r ∈ recs, Alphabet r.key ∧ r.rev < 2 ^ 64) (R : Nat)
+    {r : Rec} (hr : r ∈ recs) {st : CompState}
+    (h : Store.Sorted st.store ∧ TombClosed recs st.store ∧ Good recs st r.key r.rev) :
+    Store.Sorted (runDeletes mask st (cA3 R r)).store ∧
+    TombClosed recs (runDeletes mask st (cA3 R r)).store ∧
+    Good recs (runDeletes mask st (cA3 R r)) r.key r.rev := by
+  unfold cA3
+  split
+  · rename_i hc
+    rw [runDeletes_singleton]
+    have hG : Good recs (runDelete mask st (.delcur r.ik r.val r.key)) r.key r.rev := by
+      rw [hc.1]; exact .inr (closed_zero _ _ _)
+    rcases runDelete_store mask st (.delcur r.ik r.val r.key) with e | ⟨ik, ht, e⟩
+    · rw [e]; exact ⟨h.1, h.2.1, hG⟩
+    · simp only [actTarget, Option.some.injEq] at ht
+      subst ht
+      rw [e]
+      refine ⟨Store.sorted_erase h.1 _, ?_, hG⟩
+      apply tombClosed_erase h.1 h.2.1
+      intro t ht hti _ hpos
+      rw [hw r hr] at hti
+      have := ((ik_iff hw hk (hk r hr).2) t ht).1 hti
+      omega
+  · exact h
+
+theorem cinv_step (hm : ∀ i, mask i ≠ .failCas) (hs : SortedRecs recs) (hw : WellKeyed recs)
+    (hk : ∀ r ∈ recs, Alphabet r.key ∧ r.rev < 2 ^ 64) (hne : ∀ r ∈ recs, r.key ≠ [])
+    {done rs : List Rec} {r : Rec} (hsplit : recs = done ++ r :: rs) {R : Nat} {p : Prev}
+    (hpb : PrevBefore p (r :: rs)) (hpd : PrevDom R p done) (hp64 : p.rev < 2 ^ 64)
+    {st : CompState} (hI : CInv recs p st (r :: rs)) :
+    CInv recs (workerStep (ccfg R) p r).2 (runDeletes mask st (workerStep (ccfg R) p r).1) rs := by
+  have hr : r ∈ recs := by rw [hsplit]; simp
+  by_cases hR : R < r.rev
+  · rw [workerStep_skip p hR]
+    exact ⟨hI.1, hI.2.1, fun ⟨x, hx, hxk⟩ => hI.2.2 ⟨x, List.mem_cons_of_mem _ hx, hxk⟩⟩
+  · rw [workerStep_fst p hR, workerStep_snd p hR, runDeletes_append, runDeletes_append]
+    have h3 := phase3 (mask := mask) hw hk R hr (phase2 hm hw hk hne hr
+      (phase1 hm hs hw hk hne hsplit hpb hpd hp64 (Nat.le_of_not_lt hR) hI))
+    refine ⟨h3.1, h3.2.1, ?_⟩
+    split
+    · rename_i hidx
+      rintro ⟨x, hx, hxk⟩
+      rcases hpb r (by simp) with hc | ⟨hkey, hrev⟩
+      · exfalso
+        have hirr : ∀ k : Bytes, cmp k k ≠ .lt := by intro k; rw [cmp_refl]; decide
+        have hpw : (r :: rs).Pairwise recLt := by
+          rw [hsplit] at hs; exact (List.pairwise_append.1 hs).2.1
+        rcases (List.pairwise_cons.1 hpw).1 x hx with h | ⟨h, _⟩
+        · rw [hxk] at h; exact hirr _ (cmp_lt_trans hc h)
+        · rw [h, hxk] at hc; exact hirr _ hc
+      · have hp0 : p.rev = 0 := by
+          rcases Nat.eq_zero_or_pos p.rev with h | h
+          · exact h
+          · have := hrev h; have := hidx.1; omega
+        rw [hp0]; exact .inr (closed_zero _ _ _)
+    · intro _; exact h3.2.2
+
+theorem loop_tombClosed (hm : ∀ i, mask i ≠ .failCas) (hs : SortedRecs recs) (hw : WellKeyed recs)
+    (hk : ∀ r ∈ recs, Alphabet r.key ∧ r.rev < 2 ^ 64) (hne : ∀ r ∈ recs, r.key ≠ []) (R : Nat)
+    (rs done : List Rec) (p : Prev) (st : CompState) (hsplit : recs = done ++ rs)
+    (hpb : PrevBefore p rs) (hpd : PrevDom R p done) (hp64 : p.rev < 2 ^ 64)
+    (hI : CInv recs p st rs) :
+    TombClosed recs (runDeletes mask st (workerLoop (ccfg R) p rs)).store := by
+  induction rs generalizing done p st with
+  | nil =>
+    simp only [workerLoop]
+    rw [runDeletes_emitPrev]; exact hI.2.1
+  | cons r rs ih =>
+    simp only [workerLoop]
+    rw [runDeletes_append]
+    have hr : r ∈ recs := by rw [hsplit]; simp
+    have hpw : (r :: rs).Pairwise recLt := by
+      rw [hsplit] at hs; exact (List.pairwise_append.1 hs).2.1
+    exact ih (done ++ [r]) _ _ (by rw [hsplit]; simp) (prevBefore_step hpb hpw)
+      (prevDom_step hs hsplit hpd) (workerStep_rev_lt hp64 (hk r hr).2)
+      (cinv_step hm hs hw hk hne hsplit hpb hpd hp64 hI)
+
+end loop
+
+/-- Part A, second half: when a deletion marker is removed, every older version of its key is
+removed too (needs: no CAS error on unconditional deletes, no empty raw key). -/
+theorem compact_tombClosed {recs : List Rec} (hs : SortedRecs recs) (hw : WellKeyed recs)
+    (hk : ∀ r ∈ recs, Alphabet r.key ∧ r.rev < 2 ^ 64) (hne : ∀ r ∈ recs, r.key ≠ [])
+    (R : Nat) {mask : Nat → DelOutcome} (hm : ∀ i, mask i ≠ .failCas) :
+    TombClosed recs
+      (runDeletes mask { store := encodeStore recs } (workerActs (ccfg R) recs)).store := by
+  apply loop_tombClosed hm hs hw hk hne R recs [] {} _ rfl (prevBefore_init _)
+    (fun _ h => by simp at h) (by decide)
+  refine ⟨encodeStore_sorted hs hk, ?_, fun _ => .inr (closed_zero _ _ _)⟩
+  intro t ht hget
+  simp only at hget
+  rw [hw t ht, encodeStore_get hs hk ht] at hget; cases hget
+
+/-! ### the plain scan (`compact := false`) of a sorted store, as a filter -/
+
+theorem emitsOf_append (a b : List Act) : emitsOf (a ++ b) = emitsOf a ++ emitsOf b := by
+  induction a with
+  | nil => rfl
+  | cons x xs ih => cases x <;> simp [emitsOf, ih]
+
+theorem emitsOf_emitPrev (p : Prev) :
+    emitsOf (emitPrev p) = if 0 < p.rev ∧ isTomb p.val = false then [(p.key, p.val, p.rev)] else [] := by
+  unfold emitPrev
+  by_cases h1 : 0 < p.rev <;> cases h2 : isTomb p.val <;> simp [h1, emitsOf]
+
+theorem workerStep_scan (R : Nat) (p : Prev) (r : Rec) :
+    workerStep { R := R } p r =
+      if R < r.rev then ([], p)
+      else (if r.key != p.key then emitPrev p else [], ⟨r.key, r.rev, r.val⟩) := by
+  simp [workerStep, expireStep]
+
+/-- `r` is an emittable newest version `≤ R` of its key within `rs` -/
+def Top (R : Nat) (rs : List Rec) (r : Rec) : Prop :=
+  r.rev ≤ R ∧ 0 < r.rev ∧ isTomb r.val = false ∧ ∀ x ∈ rs, x.rev ≤ R → x.key = r.key → x.rev ≤ r.rev
+
+instance (R : Nat) (rs : List Rec) (r : Rec) : Decidable (Top R rs r) := by unfold Top; infer_instance
+
+def triple (r : Rec) : Bytes × Bytes × Nat := (r.key, r.val, r.rev)
+
+theorem top_cons_iff {R : Nat} {r0 r : Rec} {rs : List Rec} (h : recLt r0 r) :
+    Top R (r0 :: rs) r ↔ Top R rs r := by
+  unfold Top
+  simp only [List.mem_cons, forall_eq_or_imp]
+  constructor
+  · rintro ⟨h1, h2, h3, _, h4⟩; exact ⟨h1, h2, h3, h4⟩
+  · rintro ⟨h1, h2, h3, h4⟩
+    refine ⟨h1, h2, h3, ?_, h4⟩
+    intro _ hk
+    rcases h with hc | ⟨_, hc⟩
+    · rw [hk, cmp_refl] at hc; cases hc
+    · omega
+
+theorem scan_loop (R : Nat) (rs : List Rec) (p : Prev) (hpw : rs.Pairwise recLt)
+    (hpb : ∀ x ∈ rs, cmp p.key x.key = .lt ∨ p.key = x.key) :
+    emitsOf (workerLoop { R := R } p rs) =
+      (if (0 < p.rev ∧ isTomb p.val = false) ∧ (∀ x ∈ rs, x.rev ≤ R → x.key ≠ p.key)
+        then [(p.key, p.val, p.rev)] else []) ++
+      (rs.filter (fun r => decide (Top R rs r))).map triple := by
+  have hirr : ∀ k : Bytes, cmp k k ≠ .lt := by intro k; rw [cmp_refl]; decide
+  induction rs generalizing p with
+  | nil => simp [workerLoop, emitsOf_emitPrev]
+  | cons r0 rs ih =>
+    have hpw' := List.pairwise_cons.1 hpw
+    have hfilter : (r0 :: rs).filter (fun r => decide (Top R (r0 :: rs) r)) =
+        (if Top R (r0 :: rs) r0 then [r0] else []) ++ rs.filter (fun r => decide (Top R rs r)) := by
+      have : rs.filter (fun r => decide (Top R (r0 :: rs) r)) = rs.filter (fun r => decide (Top R rs r)) := by
+        apply List.filter_congr
+        intro x hx
+        exact decide_eq_decide.2 (top_cons_iff (hpw'.1 x hx))
+      rw [List.filter_cons, this]
+      by_cases h : Top R (r0 :: rs) r0 <;> simp [h]
+    simp only [workerLoop]
+    rw [workerStep_scan]
+    by_cases hR : R < r0.rev
+    · simp only [hR, if_true, List.nil_append]
+      rw [ih p hpw'.2 (fun x hx => hpb x (List.mem_cons_of_mem _ hx)), hfilter]
+      have h0 : ¬ Top R (r0 :: rs) r0 := fun h => by have := h.1; omega
+      have hall : (∀ x ∈ r0 :: rs, x.rev ≤ R → x.key ≠ p.key) ↔ (∀ x ∈ rs, x.rev ≤ R → x.key ≠ p.key) := by
+        simp only [List.mem_cons, forall_eq_or_imp]
+        exact ⟨fun h => h.2, fun h => ⟨fun h' => by omega, h⟩⟩
+      simp only [h0, if_false, List.nil_append, hall]
+    · simp only [hR, if_false]
+      have hpb' : ∀ x ∈ rs, cmp r0.key x.key = .lt ∨ r0.key = x.key := by
+        intro x hx
+        rcases hpw'.1 x hx with h | ⟨h, _⟩
+        · exact .inl h
+        · exact .inr h
+      rw [emitsOf_append, ih ⟨r0.key, r0.rev, r0.val⟩ hpw'.2 hpb', hfilter, List.map_append,
+        ← List.append_assoc, ← List.append_assoc]
+      congr 1
+      have hall : (∀ x ∈ r0 :: rs, x.rev ≤ R → x.key ≠ p.key) ↔ r0.key ≠ p.key := by
+        simp only [List.mem_cons, forall_eq_or_imp]
+        constructor
+        · exact fun h => h.1 (by omega)
+        · intro hne
+          refine ⟨fun _ => hne, ?_⟩
+          intro x hx _ hxk
+          have hlt : cmp p.key r0.key = .lt := by
+            rcases hpb r0 (by simp) with h | h
+            · exact h
+            · exact absurd h.symm hne
+          rcases hpb' x hx with h | h
+          · rw [hxk] at h; exact hirr _ (cmp_lt_trans hlt h)
+          · rw [h, hxk] at hlt; exact hirr _ hlt
+      have htop : Top R (r0 :: rs) r0 ↔
+          (0 < r0.rev ∧ isTomb r0.val = false) ∧ ∀ x ∈ rs, x.rev ≤ R → x.key ≠ r0.key := by
+        unfold Top
+        simp only [List.mem_cons, forall_eq_or_imp]
+        constructor
+        · rintro ⟨_, h2, h3, _, h4⟩
+          refine ⟨⟨h2, h3⟩, ?_⟩
+          intro x hx hxR hxk
+          have := h4 x hx hxR hxk
+          rcases hpw'.1 x hx with hc | ⟨_, hc⟩
+          · rw [hxk] at hc; exact hirr _ hc
+          · omega
+        · rintro ⟨⟨h2, h3⟩, h4⟩
+          exact ⟨by omega, h2, h3, fun _ _ => Nat.le_refl _, fun x hx hxR hxk => absurd hxk (h4 x hx hxR)⟩
+      congr 1
+      · simp only [hall]
+        by_cases hne : r0.key = p.key
+        · simp [hne, emitsOf]
+        · simp [hne, emitsOf_emitPrev]
+      · by_cases ht : Top R (r0 :: rs) r0
+        · have h' := htop.1 ht
+          simp only [ht, if_true, List.map_cons, List.map_nil, triple]
+          rw [if_pos h']
+        · have := mt htop.2 ht
+          simp [ht, this]
+
+theorem scanRecs_eq_filter {recs : List Rec} (hs : SortedRecs recs) (R : Nat) :
+    scanRecs R recs = (recs.filter (fun r => decide (Top R recs r))).map triple := by
+  unfold scanRecs workerActs
+  rw [scan_loop R recs {} hs (fun x _ => by
+    cases hx : x.key with
+    | nil => exact .inr rfl
+    | cons a as => exact .inl rfl)]
+  have : ¬ ((0 < ({} : Prev).rev ∧ isTomb ({} : Prev).val = false) ∧
+      ∀ x ∈ recs, x.rev ≤ R → x.key ≠ ({} : Prev).key) := fun h => absurd h.1.1 (by decide)
+  rw [if_neg this, List.nil_append]
+
+theorem readAt_some {R : Nat} {l : List Rec} {k v : Bytes} {n : Nat} (h : readAt R l k = some (v, n)) :
+    ∃ x ∈ l, x.key = k ∧ x.val = v ∧ x.rev = n ∧ 0 < x.rev ∧ x.rev ≤ R ∧ isTomb x.val = false ∧
+      ∃ ys, l.filter (visPred R k) = ys ++ [x] := by
+  unfold readAt at h
+  rw [visible_eq] at h
+  cases hF : (l.filter (visPred R k)).getLast? with
+  | none => rw [hF] at h; cases h
+  | some x =>
+    rw [hF] at h
+    simp only at h
+    have hx := List.mem_of_getLast? hF
+    rw [List.mem_filter, visPred_iff] at hx
+    cases ht : isTomb x.val with
+    | true => simp [ht] at h
+    | false =>
+      simp only [ht, Bool.false_eq_true, if_false, Option.some.injEq, Prod.mk.injEq] at h
+      exact ⟨x, hx.1, hx.2.1, h.1, h.2, hx.2.2.1, hx.2.2.2, ht, List.getLast?_eq_some_iff.1 hF⟩
+
+theorem top_iff_readAt {recs : List Rec} (hs : SortedRecs recs) (R : Nat) {r : Rec} (hr : r ∈ recs) :
+    Top R recs r ↔ readAt R recs r.key = some (r.val, r.rev) := by
+  have hirr : ∀ k : Bytes, cmp k k ≠ .lt := by intro k; rw [cmp_refl]; decide
+  have hF : (recs.filter (visPred R r.key)).Pairwise recLt := List.Pairwise.sublist List.filter_sublist hs
+  constructor
+  · rintro ⟨h1, h2, h3, h4⟩
+    have hrF : r ∈ recs.filter (visPred R r.key) := by
+      rw [List.mem_filter, visPred_iff]; exact ⟨hr, rfl, h2, h1⟩
+    rcases List.eq_nil_or_concat (recs.filter (visPred R r.key)) with h | ⟨init, n, h⟩
+    · rw [h] at hrF; simp at hrF
+    · rw [List.concat_eq_append] at h
+      have hn : n ∈ recs.filter (visPred R r.key) := by rw [h]; simp
+      rw [List.mem_filter, visPred_iff] at hn
+      have hle := h4 n hn.1 hn.2.2.2 hn.2.1
+      rw [h] at hrF hF
+      have : r = n := by
+        rcases List.mem_append.1 hrF with hi | hi
+        · exfalso
+          rcases (List.pairwise_append.1 hF).2.2 r hi n (by simp) with hc | ⟨_, hc⟩
+          · rw [hn.2.1] at hc; exact hirr _ hc
+          · omega
+        · simpa using hi
+      subst this
+      unfold readAt
+      rw [visible_eq, h, List.getLast?_concat]
+      simp [h3]
+  · intro h
+    obtain ⟨x, hx, hxk, hxv, hxn, h0, hR, ht, ys, hys⟩ := readAt_some h
+    have : x = r := recs_unique hs hx hr hxk hxn
+    subst this
+    refine ⟨hR, h0, ht, ?_⟩
+    intro y hy hyR hyk
+    rcases Nat.eq_zero_or_pos y.rev with hz | hz
+    · omega
+    · have hyF : y ∈ recs.filter (visPred R x.key) := by
+        rw [List.mem_filter, visPred_iff]; exact ⟨hy, hyk, hz, hyR⟩
+      rw [hys] at hyF hF
+      rcases List.mem_append.1 hyF with hi | hi
+      · rcases (List.pairwise_append.1 hF).2.2 y hi x (by simp) with hc | ⟨_, hc⟩
+        · rw [hyk] at hc; exact absurd hc (hirr _)
+        · omega
+      · have : y = x := by simpa using hi
+        subst this; exact Nat.le_refl _
+
+/-- a filter of the store that preserves every point read preserves the scan -/
+theorem scan_filter_of_readAt {recs : List Rec} (hs : SortedRecs recs) (keep : Rec → Bool) (R : Nat)
+    (h : ∀ k, readAt R (recs.filter keep) k = readAt R recs k) :
+    scanRecs R (recs.filter keep) = scanRecs R recs := by
+  have hs' : SortedRecs (recs.filter keep) := List.Pairwise.sublist List.filter_sublist hs
+  rw [scanRecs_eq_filter hs', scanRecs_eq_filter hs, List.filter_filter]
+  congr 1
+  apply List.filter_congr
+  intro r hr
+  cases hk : keep r with
+  | true =>
+    have hr' : r ∈ recs.filter keep := List.mem_filter.2 ⟨hr, hk⟩
+    simp only [Bool.and_true]
+    apply decide_eq_decide.2
+    rw [top_iff_readAt hs' R hr', top_iff_readAt hs R hr, h]
+  | false =>
+    simp only [Bool.and_false]
+    symm
+    apply decide_eq_false
+    intro ht
+    have h1 := (top_iff_readAt hs R hr).1 ht
+    rw [← h] at h1
+    obtain ⟨x, hx, hxk, _, hxn, _⟩ := readAt_some h1
+    have hx' := List.mem_filter.1 hx
+    have : x = r := recs_unique hs hx'.1 hr hxk hxn
+    subst this
+    rw [hk] at hx'; exact absurd hx'.2 (by decide)
+
+end KB.Compact
